@@ -131,7 +131,9 @@ bytes_recv = Fn(F, ["impl IpcBytesReceiver", "recv"], ret="r", extra_params=G,
     ensures=[Clause("ipc.IpcBytesReceiver.recv/ensures.raw_payload_or_converted_error",
                     "final(g).len() == old(g).len() + 1 && final(g).drop_last() == *old(g)\n"
                     "&& (r matches Ok(d) ==> final(g).last().ok && d@ == final(g).last().data)\n"
-                    "&& (r is Err ==> !final(g).last().ok)", ["C01", "C03"])],
+                    "&& (r is Err ==> !final(g).last().ok)", ["C01", "C03"]),
+             Clause("ipc.IpcBytesReceiver.recv/ensures.error_is_the_platform_error_converted_once",
+                    "r matches Err(e) ==> final(g).last().err is Some && e == conv_ipc(final(g).last().err->0)", ["C03", "C10"])],
     rules=[AppendArg("B50", r"self\.os_receiver\.recv\(", GA, "platform recv stub (logs what it handed up)", min_count=1),
            Rule("D22", r"Err\(err\.into\(\)\)", "Err(into_ipc_error(err))", "`.into()` at type IpcError (From impl of unit U4b)")],
     safety_props=["C18"])
@@ -139,7 +141,9 @@ bytes_try_recv = Fn(F, ["impl IpcBytesReceiver", "try_recv"], ret="r", extra_par
     ensures=[Clause("ipc.IpcBytesReceiver.try_recv/ensures.raw_payload_or_converted_error",
                     "final(g).len() == old(g).len() + 1 && final(g).drop_last() == *old(g)\n"
                     "&& (r matches Ok(d) ==> final(g).last().ok && d@ == final(g).last().data)\n"
-                    "&& (r is Err ==> !final(g).last().ok)", ["C01", "C10"])],
+                    "&& (r is Err ==> !final(g).last().ok)", ["C01", "C10"]),
+             Clause("ipc.IpcBytesReceiver.try_recv/ensures.error_is_the_platform_error_converted_once",
+                    "r matches Err(e) ==> final(g).last().err is Some && e == conv_try(final(g).last().err->0)", ["C10", "C03"])],
     rules=[AppendArg("B50", r"self\.os_receiver\.try_recv\(", GA, "platform try_recv stub", min_count=1),
            Rule("D22", r"Err\(err\.into\(\)\)", "Err(into_try_recv_error(err))", "`.into()` at type TryRecvError")],
     safety_props=["C18"])
